@@ -1,6 +1,7 @@
 //! rtverif — runtime-verification harness for int08h/roughenough.
 //! Invoked by /verif/check; one process per shard.
 
+mod c01;
 mod c02;
 mod c04;
 mod c05;
@@ -13,6 +14,7 @@ mod c13;
 mod c14;
 mod c17;
 mod driver;
+mod procs;
 mod codecgen;
 mod inproc;
 mod out;
@@ -83,6 +85,8 @@ fn main() {
             let mut o = out::Out::new();
             match prop.as_str() {
                 "C04" => c04::run(&ctx, &mut o),
+                "C01" => c01::run_c01(&ctx, &mut o),
+                "C03" => c01::run_c03(&ctx, &mut o),
                 "C02" | "C09" => c09::run(&ctx, &mut o, &prop),
                 "C07" => c07::run(&ctx, &mut o),
                 "C08" | "C20" => c08::run(&ctx, &mut o, &prop),
